@@ -206,6 +206,7 @@ LEVEL_TEXT = (
     "Bounded-exhaustive enumeration of (heavy flavour x NfFF x kind x process x observable x PTO x x) cells; per cell the massive and the asymptotic calculation are executed on the real code along a five-point ladder in Q2/m2 from 1e2 to 1e6, "
     "and the difference of every perturbative order, contracted with three analytic PDFs separately for the gluon, light-quark and heavy-quark rows, must stay inside a power-times-logs envelope, be absolutely small at the top of the ladder and fall "
     "over the last two decades - relative to the cancellation-safe ladder maximum of the massive term."
+    " All four beams (incl. anti-leptons, charged-lepton CC, neutrino NC) and a polarised beam are in the lattice."
 )
 LEVEL_NOTE = "Asymptotic property checked on a finite ladder with calibrated constants (margins >= 2 over the measured values); LeProHQ and adani values are taken as given. x, masses and grids outside the lattice are not covered."
 TECHNIQUE = "bounded-exhaustive enumeration of cells x Q2/m2 ladders with a differential (FFNS vs FFN0) decay oracle"
